@@ -68,10 +68,12 @@ def classify(unit: dict[str, Any], call: dict[str, Any], ref: list[list[Any]], g
     if free and a[0] == b[0] and a[0] in ("out", "callbacks"):
         # free-form units print caught exceptions / call back in sequence: the first differing item names the mechanism
         # (usually an exception message that is already a key of its own when it escapes)
-        xs = str(a[-1]).split("\n") if a[0] == "out" else list(a[-1]) if isinstance(a[-1], list) else [a[-1]]
-        ys = str(b[-1]).split("\n") if b[0] == "out" else list(b[-1]) if isinstance(b[-1], list) else [b[-1]]
+        xs = str(a[-1]).split("\n") if a[0] == "out" else list(a[-1]) if isinstance(a[-1], list) else str(a[-1]).split(" ")
+        ys = str(b[-1]).split("\n") if b[0] == "out" else list(b[-1]) if isinstance(b[-1], list) else str(b[-1]).split(" ")
         j = next((k for k in range(min(len(xs), len(ys))) if xs[k] != ys[k]), min(len(xs), len(ys)))
         tags = ":compiled has '" + F.norm_msg(str(ys[j]) if j < len(ys) else "<nothing>")[:70] + "'"
+        if a[0] == "callbacks":
+            tags += " where interpreted has '" + (str(xs[j]) if j < len(xs) else "<nothing>")[:30] + "'"
     return f"{what}:{kind}{tags}", f"{what} differs: interpreted {str(a)[:200]} vs compiled {str(b)[:200]}"
 
 
